@@ -104,4 +104,143 @@ theorem drain_J {don recv n} (g : G' don recv n) (fuel : Nat) (st out : List Nat
       simp only [length_append, length_reverse, length_cons] at hf hlen ⊢
       omega
 
+
+/-- `drain` only ever appends to `out` -/
+theorem drain_prefix {don : Nat → List Nat} (fuel : Nat) (st out : List Nat) :
+    ∃ ext, drain don fuel st out = out ++ ext := by
+  induction fuel generalizing st out with
+  | zero => exact ⟨[], by simp [drain]⟩
+  | succ f ih =>
+    cases st with
+    | nil => exact ⟨[], by simp [drain]⟩
+    | cons s st =>
+      simp only [drain]
+      obtain ⟨ext, he⟩ := ih ((don s).reverse ++ st) (out ++ don s)
+      exact ⟨don s ++ ext, by rw [he]; simp⟩
+
+/-- `drain` adds no roots (every appended node is a donor, hence has a different receiver) -/
+theorem drain_no_new_root {don recv n} (g : G' don recv n) (fuel : Nat) (st out : List Nat) :
+    ∀ x, x ∈ drain don fuel st out → recv x = x → x ∈ out := by
+  induction fuel generalizing st out with
+  | zero => intro x hx _; simpa [drain] using hx
+  | succ f ih =>
+    cases st with
+    | nil => intro x hx _; simpa [drain] using hx
+    | cons s st =>
+      intro x hx hr
+      simp only [drain] at hx
+      have := ih _ _ x hx hr
+      rcases mem_append.mp this with h | h
+      · exact h
+      · have := ((g.inv x s).mp h); rw [hr] at this; exact absurd this.1 this.2
+
+/-- invariant of the outer loop over the roots -/
+structure K (don : Nat → List Nat) (recv : Nat → Nat) (n : Nat) (doneRoots out : List Nat) : Prop where
+  j : J don recv n [] out
+  roots_in : ∀ r, r ∈ doneRoots → r ∈ out
+  only_done : ∀ x, x ∈ out → recv x = x → x ∈ doneRoots
+
+theorem K.add_root {don recv n} (g : G' don recv n) {doneRoots out : List Nat} (r : Nat)
+    (k : K don recv n doneRoots out) (hr : recv r = r) (hrn : r < n) (hnew : r ∉ doneRoots) :
+    K don recv n (doneRoots ++ [r]) (drain don (n + 1) [r] (out ++ [r])) := by
+  have hr_out : r ∉ out := fun h => hnew (k.only_done r h hr)
+  have j0 : J don recv n [r] (out ++ [r]) := by
+    refine ⟨?_, ?_, by simp, ?_, ?_, ?_, ?_⟩
+    · rw [nodup_append]; exact ⟨k.j.out_nodup, by simp, fun a ha b hb e => by simp at hb; subst hb; subst e; exact hr_out ha⟩
+    · intro x hx; rcases mem_append.mp hx with h | h
+      · exact k.j.out_lt x h
+      · simp at h; subst h; exact hrn
+    · intro s hs; simp at hs; subst hs; simp
+    · intro x hx hne
+      rcases mem_append.mp hx with h | h
+      · exact mem_append_left _ (k.j.recv_closed x h hne)
+      · simp at h; subst h; exact absurd hr hne
+    · intro x hx hxst d hd
+      rcases mem_append.mp hx with h | h
+      · exact mem_append_left _ (k.j.done x h (by simp) d hd)
+      · simp at h; subst h; simp at hxst
+    · intro s hs d hd hmem
+      simp at hs; subst hs
+      have hdr := (g.inv d s).mp hd
+      rcases mem_append.mp hmem with h | h
+      · have : recv d ≠ d := by rw [hdr.1]; exact fun e => hdr.2 e.symm
+        have := k.j.recv_closed d h this
+        rw [hdr.1] at this; exact hr_out this
+      · simp at h; exact hdr.2 h
+  have hlen := length_le_of_nodup_lt j0.out_nodup j0.out_lt
+  have jd := drain_J g (n + 1) [r] (out ++ [r]) j0 (by simp at hlen ⊢; omega)
+  obtain ⟨ext, hext⟩ := drain_prefix (don := don) (n + 1) [r] (out ++ [r])
+  refine ⟨jd, ?_, ?_⟩
+  · intro x hx
+    rw [hext]
+    rcases mem_append.mp hx with h | h
+    · exact mem_append_left _ (mem_append_left _ (k.roots_in x h))
+    · simp at h; subst h; simp
+  · intro x hx hrx
+    have := drain_no_new_root g (n + 1) [r] (out ++ [r]) x hx hrx
+    rcases mem_append.mp this with h | h
+    · exact mem_append_left _ (k.only_done x h hrx)
+    · exact mem_append_right _ h
+
+
+theorem K.fold {don recv n} (g : G' don recv n) (rs : List Nat) (doneRoots out : List Nat)
+    (k : K don recv n doneRoots out)
+    (hrs : ∀ r, r ∈ rs → recv r = r ∧ r < n ∧ r ∉ doneRoots) (hnd : rs.Nodup) :
+    K don recv n (doneRoots ++ rs) (rs.foldl (fun out r => drain don (n + 1) [r] (out ++ [r])) out) := by
+  induction rs generalizing doneRoots out with
+  | nil => simpa using k
+  | cons r t ih =>
+    simp only [foldl_cons]
+    obtain ⟨h1, h2, h3⟩ := hrs r mem_cons_self
+    have k' := k.add_root g r h1 h2 h3
+    have := ih (doneRoots ++ [r]) _ k' (by
+      intro x hx
+      obtain ⟨a, b, c⟩ := hrs x (mem_cons_of_mem _ hx)
+      refine ⟨a, b, ?_⟩
+      intro hm
+      rcases mem_append.mp hm with hm | hm
+      · exact c hm
+      · simp at hm; subst hm; exact (nodup_cons.mp hnd).1 hx) (nodup_cons.mp hnd).2
+    simpa using this
+
+theorem K.init (don : Nat → List Nat) (recv : Nat → Nat) (n : Nat) : K don recv n [] [] :=
+  ⟨⟨by simp, by simp, by simp, by simp, by simp, by simp, by simp⟩, by simp, by simp⟩
+
+/-- `k` receiver steps from `i` -/
+def iter (recv : Nat → Nat) : Nat → Nat → Nat
+  | 0, i => i
+  | k + 1, i => iter recv k (recv i)
+
+/-- **dfs_bottomup_valid, permutation half**: on a forest (every node reaches a root by following
+receivers) the bottom-up order with fuel `n + 1` is a permutation of `0 … n-1`. -/
+theorem dfs_perm {don recv n} (g : G' don recv n) (recv_lt : ∀ i, i < n → recv i < n)
+    (hforest : ∀ i, i < n → ∃ k, recv (iter recv k i) = iter recv k i) :
+    dfs don recv n (n + 1) ~ range n := by
+  have hk : K don recv n ([] ++ roots recv n) (dfs don recv n (n + 1)) := by
+    unfold dfs
+    apply K.fold g (roots recv n) [] [] (K.init don recv n)
+    · intro r hr
+      simp only [roots, mem_filter, mem_range, beq_iff_eq] at hr
+      exact ⟨hr.2, hr.1, by simp⟩
+    · exact (nodup_range).filter _
+  have hall : ∀ i, i < n → i ∈ dfs don recv n (n + 1) := by
+    intro i hi
+    obtain ⟨k, hk'⟩ := hforest i hi
+    induction k generalizing i with
+    | zero =>
+      simp only [iter] at hk'
+      apply hk.roots_in
+      simp [roots, hi, hk']
+    | succ k ih =>
+      simp only [iter] at hk'
+      have hr := ih (recv i) (recv_lt i hi) hk'
+      by_cases hself : recv i = i
+      · rw [hself] at hr; exact hr
+      · exact hk.j.done (recv i) hr (by simp) i ((g.inv i (recv i)).mpr ⟨rfl, fun e => hself e.symm⟩)
+  have h1 : dfs don recv n (n + 1) <+~ range n :=
+    subperm_of_subset hk.j.out_nodup (fun x hx => mem_range.mpr (hk.j.out_lt x hx))
+  have h2 : range n <+~ dfs don recv n (n + 1) :=
+    subperm_of_subset nodup_range (fun x hx => hall x (mem_range.mp hx))
+  exact h1.antisymm h2
+
 end Proto.Dfs
